@@ -2,7 +2,7 @@
    Arithmetic is exact (Q); equality of coordinates is Qeq componentwise ([veq], [aeq]).
    Unit direction cosines enter as the hypothesis [orthonormal r c]. *)
 From Coq Require Import String Ascii ZArith List Bool QArith Qabs Qround.
-From HD Require Import Base.Val C10_Model C10_Proofs C10_Proofs_T C10_Proofs_L C10_Proofs_V.
+From HD Require Import Base.Val C10_Model C10_Proofs C10_Proofs_T C10_Proofs_L C10_Proofs_V C10_Proofs_D C10_Proofs_S.
 Import ListNotations.
 Open Scope Q_scope.
 
@@ -292,3 +292,214 @@ Proof.
   split; [vm_compute; tauto|]. split; [vm_compute; reflexivity|]. split; vm_compute; reflexivity.
 Qed.
 Print Assumptions C10_example.
+
+(* ======================= transformers built from image datasets ======================= *)
+
+(* END TO END, TILED_FULL: for every frame f, for_image(frame_number = f) and
+   for_image(for_total_pixel_matrix = True) succeed, the 1-based offsets (C, R) yielded by
+   iter_tiled_full_frame_data lie inside the total pixel matrix, and pixel (i, j) of the frame is pixel
+   (C - 1 + i, R - 1 + j) of the total pixel matrix displaced along z by (focal plane - 1) * spacing
+   minus the origin's Z offset; on the first focal plane with no / zero origin Z the two coincide *)
+Theorem C10_tiled_full_frame_vs_tpm d x y oz r c sr sc oss f :
+  is_tiled_full d x y oz r c sr sc oss -> 0 < sr -> 0 < sc ->
+  (1 <= d_rows d)%Z -> (1 <= d_cols d)%Z -> (1 <= d_tpm_rows d)%Z -> (1 <= d_tpm_cols d)%Z ->
+  (1 <= d_focal d)%Z -> (1 <= d_paths d)%Z ->
+  (1 <= f <= d_paths d * d_focal d * tf_nt d)%Z ->
+  exists t Fm T,
+    tiled_full_frame d f = Ok t /\
+    for_image_p2r d (Some f) false = Ok Fm /\
+    for_image_p2r d None true = Ok T /\
+    (1 <= tf_col t <= d_tpm_cols d)%Z /\ (1 <= tf_row t <= d_tpm_rows d)%Z /\
+    (1 <= tf_focal t <= d_focal d)%Z /\
+    (forall i j, veq (aapply Fm (V3 i j 0))
+                     (vadd (aapply T (V3 (inject_Z (tf_col t) - 1 + i) (inject_Z (tf_row t) - 1 + j) 0))
+                           (V3 0 0 (inject_Z (tf_focal t - 1) * opt_or oss 1 - opt_or oz 0)))) /\
+    (tf_focal t = 1%Z -> opt_or oz 0 == 0 ->
+     forall i j, veq (aapply Fm (V3 i j 0))
+                     (aapply T (V3 (inject_Z (tf_col t) - 1 + i) (inject_Z (tf_row t) - 1 + j) 0))).
+Proof. exact (tiled_full_frame_vs_tpm d x y oz r c sr sc oss f). Qed.
+Print Assumptions C10_tiled_full_frame_vs_tpm.
+
+(* the frame yielded for frame number f, in closed form *)
+Theorem C10_tiled_full_frame_ok d x y oz r c sr sc oss f :
+  is_tiled_full d x y oz r c sr sc oss -> 0 < sr -> 0 < sc ->
+  (1 <= d_rows d)%Z -> (1 <= d_cols d)%Z -> (1 <= d_tpm_rows d)%Z -> (1 <= d_tpm_cols d)%Z ->
+  (1 <= d_focal d)%Z -> (1 <= d_paths d)%Z ->
+  (1 <= f <= d_paths d * d_focal d * tf_nt d)%Z ->
+  tiled_full_frame d f =
+  Ok (TFrame (tf_k f / (tf_nt d * d_focal d) + 1) (tf_sl d f + 1)
+             (tf_ci d f * d_cols d + 1) (tf_ri d f * d_rows d + 1)
+             (aapply (Aff (rotRD r c sr sc 1) (V3 x y (inject_Z (tf_sl d f) * opt_or oss 1)))
+                     (V3 (inject_Z (tf_ci d f * d_cols d)) (inject_Z (tf_ri d f * d_rows d)) 0))).
+Proof. exact (tiled_full_frame_ok d x y oz r c sr sc oss f). Qed.
+Print Assumptions C10_tiled_full_frame_ok.
+
+(* PixelToPixelTransformer.for_images(frame f -> total pixel matrix) is accepted and adds the offset *)
+Theorem C10_tiled_full_p2p_frame_to_tpm d x y oz r c sr sc oss f :
+  is_tiled_full d x y oz r c sr sc oss -> orthonormal r c -> 0 < sr -> 0 < sc ->
+  (1 <= d_rows d)%Z -> (1 <= d_cols d)%Z -> (1 <= d_tpm_rows d)%Z -> (1 <= d_tpm_cols d)%Z ->
+  (1 <= d_focal d)%Z -> (1 <= d_paths d)%Z ->
+  (1 <= f <= d_paths d * d_focal d * tf_nt d)%Z ->
+  tf_sl d f = 0%Z -> opt_or oz 0 == 0 ->
+  exists t X,
+    tiled_full_frame d f = Ok t /\
+    for_images_p2p d d (Some f) None false true = Ok X /\
+    forall i j, veq (aapply X (V3 i j 0))
+                    (V3 (inject_Z (tf_col t) - 1 + i) (inject_Z (tf_row t) - 1 + j) 0).
+Proof. exact (tiled_full_p2p_frame_to_tpm d x y oz r c sr sc oss f). Qed.
+Print Assumptions C10_tiled_full_p2p_frame_to_tpm.
+
+(* tiled image with explicit per-frame positions consistent with its stored offsets *)
+Theorem C10_tiled_perframe_frame_vs_tpm d x y r c sr sc oss sh l f g C R :
+  has (d_for d) = true -> d_multiframe d = true -> d_tiled_full d = false ->
+  d_ori_slide d = Some [vx r; vy r; vz r; vx c; vy c; vz c] -> d_origin d = Some (x, y, None) ->
+  d_shared d = Some sh -> fg_pm sh = Some (PMeas (asp sr sc) oss) -> fg_slide sh = None ->
+  d_perframe d = Some l -> (1 <= f <= Z.of_nat (length l))%Z -> nth_error l (Z.to_nat (f - 1)) = Some g ->
+  0 < sr -> 0 < sc ->
+  (exists px py pz, fg_slide g = Some (px, py, pz) /\
+     veq (V3 px py pz) (aapply (Aff (rotRD r c sr sc 1) (V3 x y 0)) (V3 (inject_Z C - 1) (inject_Z R - 1) 0))) ->
+  exists Fm T,
+    for_image_p2r d (Some f) false = Ok Fm /\ for_image_p2r d None true = Ok T /\
+    forall i j, veq (aapply Fm (V3 i j 0)) (aapply T (V3 (inject_Z C - 1 + i) (inject_Z R - 1 + j) 0)).
+Proof. exact (tiled_perframe_frame_vs_tpm d x y r c sr sc oss sh l f g C R). Qed.
+Print Assumptions C10_tiled_perframe_frame_vs_tpm.
+
+(* single-frame image: dataset-built = explicit-attribute transformers; other frame numbers refused *)
+Theorem C10_spatial_info_single d p o s f :
+  has (d_for d) = true -> d_ori_slide d = None -> d_center_seq d = false -> d_multiframe d = false ->
+  d_ipp d = Some p -> d_iop d = Some o -> d_ps d = Some s ->
+  (f = None \/ f = Some 1%Z ->
+     get_spatial_information d f false = Ok (SInfo p o s (d_ss d)) /\
+     for_image_p2r d f false = p2r_make p o s /\
+     for_image_r2p d f false = r2p_make p o s (opt_or (d_ss d) 1)) /\
+  (forall k, f = Some k -> k <> 1%Z -> get_spatial_information d f false = Err EType).
+Proof. exact (spatial_info_single d p o s f). Qed.
+Print Assumptions C10_spatial_info_single.
+
+(* multi-frame image (patient): shared functional group first, then the item of the requested frame *)
+Theorem C10_spatial_info_multiframe_patient d sh l f g pm p o :
+  has (d_for d) = true -> d_ori_slide d = None -> d_center_seq d = false -> d_multiframe d = true ->
+  d_tiled_full d = false -> d_shared d = Some sh -> d_perframe d = Some l ->
+  image_coordinate_system d = Ok (Some CPatient) ->
+  (1 <= f <= Z.of_nat (length l))%Z -> nth_error l (Z.to_nat (f - 1)) = Some g ->
+  first_of (fg_pm sh) (fg_pm g) EValue = Ok pm ->
+  first_of (fg_ipp sh) (fg_ipp g) EValue = Ok p ->
+  first_of (fg_iop sh) (fg_iop g) EValue = Ok o ->
+  get_spatial_information d (Some f) false = Ok (SInfo p o (pm_spacing pm) (pm_ss pm)) /\
+  for_image_p2r d (Some f) false = p2r_make p o (pm_spacing pm) /\
+  for_image_r2p d (Some f) false = r2p_make p o (pm_spacing pm) (opt_or (pm_ss pm) 1) /\
+  get_spatial_information d None false = Err EType.
+Proof. exact (spatial_info_multiframe_patient d sh l f g pm p o). Qed.
+Print Assumptions C10_spatial_info_multiframe_patient.
+
+(* no frame of reference / not a tiled image / missing frame number are refused *)
+Theorem C10_spatial_info_refusals d f tpm :
+  (d_for d = None -> get_spatial_information d f tpm = Err EValue) /\
+  (forall cs, image_coordinate_system d = Ok (Some cs) -> d_origin d = None ->
+     get_spatial_information d f true = Err EValue) /\
+  (forall cs, image_coordinate_system d = Ok (Some cs) -> d_multiframe d = true ->
+     get_spatial_information d None false = Err EType).
+Proof. exact (spatial_info_refusals d f tpm). Qed.
+Print Assumptions C10_spatial_info_refusals.
+
+(* for_images refuses datasets of different frames of reference *)
+Theorem C10_for_images_refuses_other_frame_of_reference mk a b fa fb ta tb :
+  (forall u, d_for a = Some u -> d_for b <> Some u) -> exists k, for_images mk a b fa fb ta tb = Err k.
+Proof. exact (for_images_refuses_other_frame_of_reference mk a b fa fb ta tb). Qed.
+Print Assumptions C10_for_images_refuses_other_frame_of_reference.
+
+(* coplanar pairs (equal or opposite normals, offset within the plane) ARE accepted, the result is
+   R2P_to o P2R_from, stays in the plane and designates the same physical point *)
+Theorem C10_p2p_coplanar_accepted pos r c sr sc pos2 r2 c2 sr2 sc2 :
+  orthonormal r c -> orthonormal r2 c2 -> same_plane pos r c pos2 r2 c2 ->
+  0 < sr -> 0 < sc -> 0 < sr2 -> 0 < sc2 ->
+  exists T P P2 Rv2,
+    p2p_make (apos pos) (aori r c) (asp sr sc) (apos pos2) (aori r2 c2) (asp sr2 sc2) = Ok T /\
+    p2r_make (apos pos) (aori r c) (asp sr sc) = Ok P /\
+    p2r_make (apos pos2) (aori r2 c2) (asp sr2 sc2) = Ok P2 /\
+    r2p_make (apos pos2) (aori r2 c2) (asp sr2 sc2) 1 = Ok Rv2 /\
+    forall i j,
+      veq (aapply T (V3 i j 0)) (aapply Rv2 (aapply P (V3 i j 0))) /\
+      vz (aapply T (V3 i j 0)) == 0 /\
+      veq (aapply P2 (V3 (vx (aapply T (V3 i j 0))) (vy (aapply T (V3 i j 0))) 0)) (aapply P (V3 i j 0)).
+Proof. exact (p2p_coplanar_accepted pos r c sr sc pos2 r2 c2 sr2 sc2). Qed.
+Print Assumptions C10_p2p_coplanar_accepted.
+
+(* the exact square root of the spacing accessors exists on every positive rational *)
+Theorem C10_qsqrt_square s : 0 < s -> exists s', qsqrt (s * s) = Some s' /\ s' == s.
+Proof. exact (qsqrt_square s). Qed.
+Print Assumptions C10_qsqrt_square.
+
+(* VolumeGeometry.from_attributes: spacing / direction_cosines SUCCEED and return the attributes
+   (strengthens C10_volume_accessors), and map_reference_to_indices inverts map_indices_to_reference *)
+Theorem C10_volume_accessors_total pos r c sr sc ss nf rows cols :
+  orthonormal r c -> 0 < sr -> 0 < sc -> 0 < ss ->
+  exists G s dr dc,
+    geom_from_attributes (apos pos) (aori r c) (asp sr sc) ss nf rows cols = Ok G /\
+    g_position G = pos /\ g_shape G = [nf; rows; cols] /\ g_handedness G = RH /\
+    g_spacing G = Some s /\ veq s (V3 ss sr sc) /\
+    g_direction_cosines G = Some (dr, dc) /\ veq dr r /\ veq dc c /\
+    g_center_position G = Ok (aapply (g_aff G) (centre_index nf rows cols)) /\
+    (forall p, exists q, g_map_reference_to_indices G [aapply (g_aff G) p] = Ok [q] /\ veq q p).
+Proof. exact (volume_accessors_total pos r c sr sc ss nf rows cols). Qed.
+Print Assumptions C10_volume_accessors_total.
+
+(* the first sentence of the property, as one statement *)
+Theorem C10_transforms_consistent pos r c sr sc ss pos2 r2 c2 sr2 sc2 :
+  orthonormal r c -> orthonormal r2 c2 -> same_plane pos r c pos2 r2 c2 ->
+  0 < sr -> 0 < sc -> ~ ss == 0 -> 0 < sr2 -> 0 < sc2 ->
+  exists P Rv I Ri T Rv2,
+    p2r_make (apos pos) (aori r c) (asp sr sc) = Ok P /\
+    r2p_make (apos pos) (aori r c) (asp sr sc) ss = Ok Rv /\
+    i2r_make (apos pos) (aori r c) (asp sr sc) = Ok I /\
+    r2i_make (apos pos) (aori r c) (asp sr sc) ss = Ok Ri /\
+    p2p_make (apos pos) (aori r c) (asp sr sc) (apos pos2) (aori r2 c2) (asp sr2 sc2) = Ok T /\
+    r2p_make (apos pos2) (aori r2 c2) (asp sr2 sc2) 1 = Ok Rv2 /\
+    (forall i j, veq (aapply Rv (aapply P (V3 i j 0))) (V3 i j 0)) /\
+    (forall x, vz (aapply Rv x) == 0 -> veq (aapply P (V3 (vx (aapply Rv x)) (vy (aapply Rv x)) 0)) x) /\
+    (forall u v, veq (aapply Ri (aapply I (V3 u v 0))) (V3 u v 0)) /\
+    (forall i j, veq (aapply I (V3 (i + (1 # 2)) (j + (1 # 2)) 0)) (aapply P (V3 i j 0))) /\
+    (forall x, veq (aapply Ri x) (vadd (aapply Rv x) (V3 (1 # 2) (1 # 2) 0))) /\
+    (forall i j, veq (aapply T (V3 i j 0)) (aapply Rv2 (aapply P (V3 i j 0))) /\ vz (aapply T (V3 i j 0)) == 0) /\
+    (forall p : Z * Z, map_pixel_into_coordinate_system (zpt p) (apos pos) (aori r c) (asp sr sc)
+                       = Ok (aapply P (V3 (inject_Z (fst p)) (inject_Z (snd p)) 0))) /\
+    (forall x, map_coordinate_into_pixel_matrix x (apos pos) (aori r c) (asp sr sc) ss
+               = Ok (rne (vx (aapply Rv x)), rne (vy (aapply Rv x)), rne (vz (aapply Rv x)))).
+Proof. exact (transforms_consistent pos r c sr sc ss pos2 r2 c2 sr2 sc2). Qed.
+Print Assumptions C10_transforms_consistent.
+
+(* REFUTED for the code as it is (finding): a non-zero Z offset in the origin item is ignored by the
+   frame transformer and used by the total-pixel-matrix transformer; frame -> matrix P2P is refused *)
+Example C10_tiled_full_origin_z_refuted :
+  exists d x y oz r c sr sc oss f Fm T t,
+    is_tiled_full d x y (Some oz) r c sr sc oss /\ orthonormal r c /\
+    tiled_full_frame d f = Ok t /\
+    for_image_p2r d (Some f) false = Ok Fm /\ for_image_p2r d None true = Ok T /\
+    ~ veq (aapply Fm (V3 0 0 0)) (aapply T (V3 (inject_Z (tf_col t) - 1) (inject_Z (tf_row t) - 1) 0)) /\
+    for_images_p2p d d (Some f) None false true = Err EValue.
+Proof. exact tiled_full_origin_z_refuted. Qed.
+Print Assumptions C10_tiled_full_origin_z_refuted.
+
+(* recorded as coded: frame number 0 of a per-frame multi-frame image is not refused, it wraps to the last frame *)
+Example C10_frame_number_zero_wraps :
+  let g k := FGroup None (Some (ASeq [0; 0; inject_Z k])) None None in
+  let d := DSet (Some "1.2"%string) true false None false None None None None
+                (Some (FGroup (Some (PMeas (ASeq [1; 1]) None)) None (Some (ASeq [1; 0; 0; 0; 1; 0])) None))
+                (Some [g 10%Z; g 20%Z; g 30%Z]) false None 4 4 0 0 1 1 in
+  get_spatial_information d (Some 0%Z) false = get_spatial_information d (Some 3%Z) false /\
+  exists s, get_spatial_information d (Some 0%Z) false = Ok s.
+Proof. exact frame_number_zero_wraps. Qed.
+Print Assumptions C10_frame_number_zero_wraps.
+
+(* non-vacuity of the dataset theorems *)
+Example C10_dataset_example :
+  is_tiled_full (wsi_example None) 10 20 None (V3 0 1 0) (V3 1 0 0) (1 # 2) (1 # 2) None /\
+  orthonormal (V3 0 1 0) (V3 1 0 0) /\
+  (1 <= 4 <= d_paths (wsi_example None) * d_focal (wsi_example None) * tf_nt (wsi_example None))%Z /\
+  tf_sl (wsi_example None) 4 = 0%Z /\
+  run_tiled_full_frame (wsi_example None) 4 = VL [VZ 1; VZ 1; VZ 5; VZ 5; VL [VQ (48 # 4); VQ (88 # 4); VQ (0 # 4)]] /\
+  run_for_images (wsi_example None) (wsi_example None) (Some 4%Z) None false true [[1; 2]]
+  = match run_for_images (wsi_example None) (wsi_example None) (Some 4%Z) None false true [[1; 2]] with
+    | VL [VL [a; _]; b] => VL [VL [a; VL [VL [VQ 5; VQ 6]]]; b] | _ => VErr "shape" end.
+Proof. exact dataset_example. Qed.
+Print Assumptions C10_dataset_example.
